@@ -77,7 +77,8 @@ def inject(rng, prog, kind):
         m = rng.choice(excl)
         t = rng.choice(tids)
         body = nodes[t][1]["body"]
-        how = rng.choice(["same-body", "two-chains", "parallel-ifs", "disabled-calls", "beside-existing-chain", "beside-existing-chain"])
+        how = rng.choice(["same-body", "two-chains", "parallel-ifs", "disabled-calls", "beside-existing-chain", "beside-existing-chain",
+                          "second-site-of-wrapper"])
         if how == "beside-existing-chain":
             # a direct call of an exclusive method right next to an existing call that already reaches it
             # (possibly deep in the chain, possibly one of several exclusive alternatives calling the same method)
@@ -103,6 +104,13 @@ def inject(rng, prog, kind):
         elif how == "disabled-calls":  # enable_call does not make calls exclusive
             body.append(_new_site(prog, m, rng, en=True))
             body.append(_new_site(prog, _alias_ref(prog, a, m, rng), rng, en=True))
+        elif how == "second-site-of-wrapper":
+            # a wrapper of the method is called in both alternatives of an If; only beside its *second* call site the
+            # method is also called directly (a validation that walks a callee's subtree once per root misses it)
+            q = _new_method(prog, rng, [_new_site(prog, m, rng)])
+            u = _new_uid(prog)
+            body.append(["If", {"u": u, "arms": [[_new_input(prog), [_new_site(prog, q, rng)]]],
+                                "else": [_new_site(prog, q, rng), _new_site(prog, _alias_ref(prog, a, m, rng), rng)]}])
         elif how == "two-chains":
             q1 = _new_method(prog, rng, [_new_site(prog, m, rng)])
             q2 = _new_method(prog, rng, [_new_site(prog, m, rng)])
